@@ -77,7 +77,7 @@ func c02Count(maxSteps int) int {
 }
 
 func c02(r *mon.Run) {
-	var lfc mon.Workload
+	var lfc, twoSl mon.Workload
 	maxSteps := tierPick(r, 3, 4)
 	r.Rule = "exhaustive: every chain of 1..K steps (K=3 quick, 4 thorough) over 17 steps {.a .\"a\" .b [0] [-1] [*] [] [?a] [?@] .* [1:] [::-1] .[a,b] .{x:a} .type(@) .to_string(@) .not_null(a,'z')} x heads {a, @, bare} x terminators {end, | [0], (…).a, (…)[0], || b, == b, evaluated twice [c, c]} x a 38-document universe (incl. strings holding JSON text at the root) (empty / null-containing / heterogeneous / nested arrays and objects); " +
 		"plus every chain of 1-2 steps over arrays of 15...1025 elements (thorough to 65536) in four element patterns; plus seeded random nested projections with filters and slices on random typed documents; plus every chain of <= 4 navigational steps on 6 documents given as Go-typed slices ([][][]float64, [][]string, []map…; the reflection twins of the projection loops) against the model on the generic form. node-kind pairs: 49 representatives of every node kind in each of the 38 single-hole grammar contexts and in every context of every context, on 3 documents (the trees this property owns: a projection, no function or operator). Oracle: ref.RefSet with member-order nondeterminism as a result set. Non-trivial = distinct (expression, document) with a projection whose expected result is a non-empty array, or null because the left side has the wrong type (counted separately)."
@@ -393,7 +393,31 @@ func c02(r *mon.Run) {
 			}}
 		lfc = ws
 	}
-	r.Exec(exh, rnd, typed, lng, fcw, fnw, kindPairsWorkload(r, "C02"), hw, lfc)
+	// two slices (or a slice and another projection) in ONE expression over lists of the same length, differing only in whether a
+	// bound is written as 0 or left out, or in its sign: each node answers for its own parameters
+	{
+		sls := [][3]string{{"", "", ""}, {"0", "", ""}, {"", "0", ""}, {"", "", "-1"}, {"0", "", "-1"}, {"", "0", "-1"}, {"", "", "1"}, {"0", "0", ""}, {"1", "", ""}, {"", "1", ""}, {"-1", "", ""}, {"", "-1", ""}, {"0", "", "2"}, {"", "", "2"}, {"1", "", "-1"}, {"", "1", "-1"}, {"-0", "", ""}, {"", "-0", ""}, {"0", "4", "1"}, {"", "4", ""}}
+		xsDoc := docs.J(`{"xs":[{"n":1},{"n":2},{"n":3},{"n":4}],"ys":[{"n":5},{"n":6},{"n":7},{"n":8}]}`)
+		NS := len(sls)
+		twoSl = mon.Workload{Name: "two-slices-in-one-expression", N: NS * NS * 3, Batch: 500,
+			Do: func(i int, t *mon.Tally) {
+				a, b, form := sls[i/3/NS], sls[i/3%NS], i%3
+				sa, sb := gen.StSliceS(a[0], a[1], a[2]), gen.StSliceS(b[0], b[1], b[2])
+				var tree *gen.Expr
+				switch form {
+				case 0:
+					tree = gen.MultiList(gen.Chain(gen.Field("xs"), sa, gen.StField("n")), gen.Chain(gen.Field("xs"), sb, gen.StField("n")))
+				case 1:
+					tree = gen.MultiList(gen.Chain(gen.Field("xs"), sa, gen.StField("n")), gen.Chain(gen.Field("ys"), sb, gen.StField("n")), gen.Chain(gen.Field("xs"), sa, gen.StField("n")))
+				default:
+					tree = gen.Pipe(gen.Chain(gen.Field("xs"), sa), gen.Chain(nil, sb, gen.StField("n")))
+				}
+				cx := &caseCtx{r, t, "two-slices-in-one-expression", i}
+				res, _, _ := cx.runBoth(tree, gen.SpellTight(tree), xsDoc)
+				c02Account(t, tree, gen.SpellTight(tree), xsDoc, res, i)
+			}}
+	}
+	r.Exec(exh, rnd, typed, lng, fcw, fnw, kindPairsWorkload(r, "C02"), hw, lfc, twoSl)
 }
 
 func c02Account(t *mon.Tally, tree *gen.Expr, expr string, doc interface{}, res ref.Result, i int) {
